@@ -58,8 +58,11 @@ field with an infinite `max_value`), and `C03_generic_exact` / `C03_linkage_exac
 median are, over `ℚ`/`ℝ`, statements about such matrices only.  The desired statement —
       "if every table value reached by the greedy run is `< max_value` then `genericWith` returns a
        `GreedyValid` dendrogram" (a RUN-dependent bound) —
-is not proved: the simulation `genericWith_sim` (`Lemmas/GenericGreedySim.lean`) carries a FIXED closed
-good set through its invariants.  For single / complete / average / weighted there is no such gap
+was not proved when this file was written (the simulation `genericWith_sim` carried a FIXED closed
+good set through its invariants).  UPDATE: it IS now proved — `Props/C03GenericRun.lean`
+(`C03_generic_run_exact`, `C03_linkage_run_exact`, hypothesis `Spec.RunGood (· < max_value) m n data`,
+with NON-constant Ward / centroid / median examples over `ℚ`); the theorems of this file are
+special cases (`runGood_of_genericSafe`).  For single / complete / average / weighted there is no such gap
 (`C03_generic_exact_noDist`).  `primitive_with` and `nnchain_with` have no sentinel hypothesis at all
 (`C03_primitive_exact`, `C03_nnchain_exact`).
 
